@@ -113,6 +113,12 @@ def universe(tier):
                     if len({(c[0], c[1], c[2]) for c in combo}) < len(combo):
                         continue
                     yield {"bi": bi, "tier": tier, "tree": tk, "ov": combo}
+            # an override in a NESTED scenario that is large against the window (80 h): the scenarios that do not see it - the top
+            # scenario and the siblings - must not move (the scenarios that do see it are not compared: the window is sized from
+            # the first scenario only, see the assumptions)
+            for sid in sids[1:]:
+                for tid in first_two_leaves(base["tasks"]):
+                    yield {"bi": bi, "tier": tier, "tree": tk, "ov": ((sid, tid, "effort", "big"),)}
             # the same attribute of one task overridden in TWO scenarios, the statements written in either order (descendants that have
             # no value of their own take the nearest ancestor's, whichever statement comes first in the body)
             if len(sids) >= 3:
@@ -136,6 +142,8 @@ def find_task(tasks, tid):
 
 def value_of(t, attr, how):
     if attr == "effort":
+        if how == "big":
+            return 4800
         return t["effort"] * 2 if how == "x2" else max(10, t["effort"] // 2)
     return how
 
@@ -189,7 +197,14 @@ def evaluate(item):
         v.append(("scenario-count", f"{om['nsc']} scenarios in the project, {len(sl)} declared"))
         r["v"] = v
         return r
+    parent = dict(sl)
     for idx, (sid, _par) in enumerate(sl):
+        chain, s_ = [], sid
+        while s_ is not None:
+            chain.append(s_)
+            s_ = parent[s_]
+        if any(o[0] in chain and o[3] == "big" for o in item["ov"]):
+            continue   # this scenario sees the large override (window sizing, not independence, decides there)
         ss = single_spec(item, sid)
         os_ = common.run_spec(ss)
         r["tr"] += os_.get("placements", 0) + os_.get("bookings", 0)
